@@ -170,13 +170,8 @@ def snapshot(doc, depth=0):
                       ('TableCell', table.TableCell), ('NumberStyle', number.NumberStyle), ('UserDefined', meta.UserDefined)):
         q[name] = tuple(mem_infoset(e) for e in doc.getElementsByType(fac))
     s['byType'] = q
-    # getStyleByName on a document without any registered style:style re-indexes every element once more
-    # (a C09 matter: the *query* changes later query results); the snapshot must not disturb what it observes
-    registered = any(e.getAttrNS(NS['style'], 'name') is not None and e.parentNode is not None and
-                     e.parentNode.qname in ((OFFICE, 'styles'), (OFFICE, 'automatic-styles'))
-                     for e in doc.getElementsByType(style.Style))
     s['byName'] = tuple((n, (lambda e: None if e is None else mem_infoset(e))(doc.getStyleByName(n)))
-                        for n in (u'Common', u'P0', u'P1', u'Unused', u'ce1', u'HdrP', u'pm1', u'N1', u'Nope')) if registered else ()
+                        for n in (u'Common', u'P0', u'P1', u'Unused', u'ce1', u'HdrP', u'pm1', u'N1', u'Nope'))
     s['pictures'] = tuple((k, tuple(v)) for k, v in doc.Pictures.items())
     s['thumbnail'] = doc.thumbnail
     s['extra'] = tuple((o.filename, o.mediatype, o.content) for o in doc._extra)
